@@ -6,6 +6,7 @@ objects whose listening socket and accepted sockets are ScriptedSocket doubles (
 FakeTlsContext).
 """
 import errno
+import socket
 from concurrent.futures import ThreadPoolExecutor
 
 from .. import doubles_net as dn
@@ -25,6 +26,12 @@ def cfg_text(kinds, addrs, maxconns):
     return ('SPECIFICATION Spec\nCONSTANTS\n  Kinds = {%s}\n  Addrs = {%s}\n  MaxConns = %d\n'
             'INVARIANT OnePerAddress\nINVARIANT ReplacedIsShutDown\nINVARIANT RemoveCloses\nPROPERTY NeverRaises\n'
             % (", ".join('"%s"' % k for k in kinds), ", ".join('"%s"' % a for a in addrs), maxconns))
+
+
+def shut_answer(sd):
+    if sd == "noerrno":
+        return dn.exc(socket.error("shutdown failed (scripted, no errno)"))
+    return dn.err(getattr(errno, sd))
 
 
 class ServerAdapter:
@@ -114,6 +121,12 @@ class ServerAdapter:
     def step(self, name, args, expected):
         srv = self.srv
         ca = ADDRS.get(str(args[0])) if name not in ("ServiceConnects", "ServiceAll") else None
+        sd = str(args[1]) if name in ("ServiceConnects", "ServiceAll", "Remove") else "ok"
+        if sd != "ok":
+            # the answer every open accepted socket gives to a shutdown() during this step
+            for s in self.socks.values():
+                if not s.closed:
+                    s.push("shutdown", shut_answer(sd))
         res = "none"
         if name == "Arrive":
             cid = len(self.socks) + 1
@@ -162,6 +175,8 @@ class ServerAdapter:
                 res = "ValueError"
         else:
             raise NotImplementedError(name)
+        for s in self.socks.values():
+            s.clear("shutdown")
         return self.project(res, expected)
 
 
